@@ -13,18 +13,15 @@ Definition pinned_init_wrapper : list string := [
   "except KeyError as err:";
   "    raise KeyError('...'.format(func, param_names, args, kwargs)) from err";
   "in_progress = _IN_PROGRESS.get()";
-  "if in_progress is None:";
-  "    in_progress = set()";
-  "    _IN_PROGRESS.set(in_progress)";
   "id_instance = id(instance)";
-  "in_progress.add(id_instance)";
+  "_IN_PROGRESS.set(in_progress | {id_instance})";
   "try:";
   "    result = func(*args, **kwargs)";
   "    for invariant in instance.__class__.__invariants__:";
   "        _assert_invariant(contract=invariant, instance=instance)";
   "    return result";
   "finally:";
-  "    in_progress.discard(id_instance)"
+  "    _IN_PROGRESS.set(in_progress)"
 ].
 
 Definition pinned_invariant : list string := [
@@ -34,12 +31,9 @@ Definition pinned_invariant : list string := [
   "    raise KeyError('...'.format(func, param_names, args, kwargs)) from err";
   "invariants = instance.__class__.__invariants_on_setattr__ if func.__name__ == '__setattr__' else instance.__class__.__invariants_on_call__";
   "in_progress = _IN_PROGRESS.get()";
-  "if in_progress is None:";
-  "    in_progress = set()";
-  "    _IN_PROGRESS.set(in_progress)";
   "id_instance = id(instance)";
   "if id_instance not in in_progress:";
-  "    in_progress.add(id_instance)";
+  "    _IN_PROGRESS.set(in_progress | {id_instance})";
   "else:";
   "    return func(*args, **kwargs)";
   "try:";
@@ -50,7 +44,7 @@ Definition pinned_invariant : list string := [
   "        _assert_invariant(contract=invariant, instance=instance)";
   "    return result";
   "finally:";
-  "    in_progress.discard(id_instance)"
+  "    _IN_PROGRESS.set(in_progress)"
 ].
 
 Definition pinned_new_wrapper : list string := [
